@@ -26,16 +26,17 @@ import (
 type Rec map[string]any
 
 var (
-	mu      sync.Mutex
-	recs    []Rec
-	seq     int
-	ids     = map[any]int{}
-	gids    = map[int64]int{}
-	names   = map[int]string{} // optional alias of object ids
-	withG   = true
-	start   = time.Now()
-	filter  func(name string) bool
-	Convert func(v any) (any, bool) // extra value converter installed by drivers
+	mu        sync.Mutex
+	recs      []Rec
+	seq       int
+	ids       = map[any]int{}
+	gids      = map[int64]int{}
+	names     = map[int]string{} // optional alias of object ids
+	withG     = true
+	start     = time.Now()
+	filter    func(name string) bool
+	objFilter func(o any) bool
+	Convert   func(v any) (any, bool) // extra value converter installed by drivers
 )
 
 // Install routes hook events into this package.
@@ -47,6 +48,9 @@ func Uninstall() { sio.VerifSetSink(nil) }
 
 // SetFilter restricts which hook events are recorded (nil = all).
 func SetFilter(f func(name string) bool) { mu.Lock(); filter = f; mu.Unlock() }
+
+// SetObjectFilter drops hook events whose "o" object is not accepted (nil = all).
+func SetObjectFilter(f func(o any) bool) { mu.Lock(); objFilter = f; mu.Unlock() }
 
 func WithGoroutine(on bool) { mu.Lock(); withG = on; mu.Unlock() }
 
@@ -70,6 +74,16 @@ func sink(name string, kv []any) {
 	defer mu.Unlock()
 	if filter != nil && !filter(name) {
 		return
+	}
+	if objFilter != nil {
+		for i := 0; i+1 < len(kv); i += 2 {
+			if k, _ := kv[i].(string); k == "o" {
+				if !objFilter(kv[i+1]) {
+					return
+				}
+				break
+			}
+		}
 	}
 	emitLocked(name, gid, kv)
 }
